@@ -309,7 +309,12 @@ private:
     control_block = global_thread_block_list.acquire_entry();
     assert(control_block->is_in_critical_region.load() == false);
     auto epoch = global_epoch.load(std::memory_order_relaxed);
-    control_block->local_epoch.store(epoch, std::memory_order_relaxed);
+    // This has to be a release-store: the control block might have been adopted from a thread that has
+    // terminated. A scanning thread may still read that thread's stale is_in_critical_region == true together
+    // with this new local epoch and conclude that the block does not prevent an epoch update; the
+    // happens-before relation to the terminated thread's last critical region (established by the acquire-CAS
+    // in try_adopt) must therefore be passed on to the scanning thread (acquire-fence (6)).
+    control_block->local_epoch.store(epoch, std::memory_order_release);
     local_epoch_idx = epoch % number_epochs;
     scan_strategy.reset();
   }
